@@ -8,5 +8,6 @@ Definition abs_node (h : heap) (i : id) : snode :=
   let x := nd h i in
   mkS (n_ty x) (n_name x) (n_val x) (n_attrs x)
       (match pub_odoc h i with Some d => d | None => i end)
-      (parent h i) (kids h i) (n_ro x) (n_ns x) (negb (n_nsimpl x)) (n_oelem x) (n_dead x).
+      (parent h i) (kids h i) (n_ro x) (n_ns x) (negb (n_nsimpl x)) (n_oelem x) (n_dead x)
+      (if n_hasud x then map (fun p => (fst p, fst (snd p))) (n_udata x) else []) (n_isid x).
 Definition abs (h : heap) : sheap := map (abs_node h) (seq 0 (length h)).
